@@ -12,14 +12,15 @@ import (
 
 // pipeCase is a pipeline of command requests with its delivery schedule and handler script.
 type pipeCase struct {
-	Reqs     [][]*resp.Bin `json:"reqs"`                // a null argument stands for a null bulk
-	Sizes    []int         `json:"sizes"`               // chunk sizes of the request stream
-	ErrCalls []int         `json:"err_calls,omitempty"` // handler calls (by sequence number) that return an error
-	NilCalls []int         `json:"nil_calls,omitempty"` // handler calls that return neither a message nor an error
-	GetMode  string        `json:"get_mode,omitempty"`
-	GetValue string        `json:"get_value,omitempty"`
-	Password string        `json:"password,omitempty"` // C20: server requires this password
-	Cut      int           `json:"cut,omitempty"`      // C20: stream ends after this many bytes (0 = complete)
+	Reqs           [][]*resp.Bin `json:"reqs"`                // a null argument stands for a null bulk
+	Sizes          []int         `json:"sizes"`               // chunk sizes of the request stream
+	ErrCalls       []int         `json:"err_calls,omitempty"` // handler calls (by sequence number) that return an error
+	NilCalls       []int         `json:"nil_calls,omitempty"` // handler calls that return neither a message nor an error
+	GetMode        string        `json:"get_mode,omitempty"`
+	GetValue       string        `json:"get_value,omitempty"`
+	Password       string        `json:"password,omitempty"`         // C20: server requires this password
+	Cut            int           `json:"cut,omitempty"`              // C20: stream ends after this many bytes (0 = complete)
+	WriteFailAfter *int          `json:"write_fail_after,omitempty"` // C20: reply writes fail once this many bytes were written (the peer is gone)
 }
 
 func (c pipeCase) values() []resp.Value {
